@@ -1,6 +1,6 @@
 """C16 — `incan test` reports the truth.
 
-proof:   coq/C16/Props.v (17 theorems over all test lists / file trees / raw-verdict functions).
+proof:   coq/C16/Props.v (19 theorems over all test lists / file trees / raw-verdict functions).
 tie:     hand model C16/Model.v vs the REAL runner driven end to end: vharness re-executes itself as
          the `incan` binary (clap parsing -> cli::execute -> test_runner::run_tests ->
          run_single_test -> `cargo test`) on generated trees of test files with a stub `cargo`
@@ -19,7 +19,8 @@ import re
 import vlib
 
 KF_FALLBACK = os.path.join(vlib.VERIF, "build", "kf-C16.json")
-FINDING_ID = "test-body-never-run"
+FINDING_ID = "test-with-params-or-async-not-executed"   # what remains after the repair of test-body-never-run
+FIXED_ID = "test-body-never-run"
 
 # ------------------------------------------------------------------------------------------------
 # generator structures
@@ -114,7 +115,8 @@ COQ_DEFS = ("Definition zs (s : string) : str := List.map (fun a => Z.of_N (N_of
 def coq_fn(f):
     decs = "; ".join("{| d_name := %s; d_arg := %s |}" % (cstr(dn), ("Some " + cstr(f.first_pos_arg(sp))) if f.first_pos_arg(sp) is not None else "None")
                      for (dn, sp) in f.decs)
-    return "DFun {| f_name := %s; f_decs := [%s]; f_params := [%s] |}" % (cstr(f.name), decs, "; ".join(cstr(p) for p in f.params))
+    return "DFun {| f_name := %s; f_decs := [%s]; f_params := [%s]; f_async := %s |}" % (
+        cstr(f.name), decs, "; ".join(cstr(p) for p in f.params), "true" if f.is_async else "false")
 
 
 def coq_node(n):
@@ -452,7 +454,8 @@ def model_view(mv):
     (results, counts, executed, parts) = st
     lines = [(pystr(fn), pystr(tn), rr[0], pystr(rr[1])) for (fn, tn, rr) in results]
     return {"kind": kind, "exit": exit_, "collected": collected, "lines": lines, "counts": list(counts),
-            "executed": [(pystr(a), pystr(b)) for (a, b) in executed], "parts": [tuple(p) for p in parts],
+            "executed": [(pystr(a), pystr(b)) for (a, b, _) in executed],
+            "executed_runs_body": [(pystr(a), pystr(b), bool(rb)) for (a, b, rb) in executed], "parts": [tuple(p) for p in parts],
             "fixtures": sorted(pystr(f) for f in fixtures)}
 
 
@@ -581,8 +584,21 @@ def truth_files(tier):
         Fn("test_body_panics", body='fail("boom")'),
     ], imports=TRUTH_IMPORT)
     truth = {"test_body_passes": True, "test_body_fails_assert": False, "test_body_panics": False}
-    sets = [(trio, truth, [])]
+    # what the repaired harness still does not execute: tests with parameters (fixtures)
+    fp = TFile("test_truth_params.incn", 4, [
+        Fn("db", decs=[("fixture", None)], ret="int", body="return 1"),
+        Fn("test_fixture_param_body_fails", params=["db"], body="assert_eq(db, 2)"),
+        Fn("test_fixture_param_body_passes", params=["db"], body="assert_eq(db, 1)"),
+    ], imports=TRUTH_IMPORT)
+    tp = {"test_fixture_param_body_fails": False, "test_fixture_param_body_passes": True}
+    sets = [(trio, truth, []), (fp, tp, [])]
     if tier == "thorough":
+        fa = TFile("test_truth_async.incn", 5, [
+            Fn("test_async_body_fails", body="assert_eq(1, 2)", is_async=True),
+            Fn("test_parametrized_body_fails", decs=[("parametrize", ("raw", '"v", [1, 2]'))], params=["v"], body="assert_eq(v, 0)"),
+            Fn("test_plain_next_to_them_fails", body="assert_eq(1, 2)"),
+        ], imports=TRUTH_IMPORT)
+        sets.append((fa, {"test_async_body_fails": False, "test_parametrized_body_fails": False, "test_plain_next_to_them_fails": False}, []))
         f2 = TFile("test_truth2.incn", 2, [
             Fn("test_xfail_body_fails", decs=[("xfail", ("pos", "known"))], body="assert_true(false)"),
             Fn("test_xfail_body_passes", decs=[("xfail", ("pos", "known"))], body="assert_true(true)"),
@@ -622,27 +638,32 @@ def truth_expected(f, truth):
     return lines
 
 
+def model_runs_body(d):
+    """Python mirror of Model.harness_runs_body (cross-checked against Coq in run())."""
+    return not d.params and not d.is_async
+
+
 def run_truth(chk, binary, res):
-    """Runs the real runner with the real cargo. Returns (fails, known_hit, runs_body, evidence)."""
+    """Runs the real runner with the real cargo on tests whose body outcome is known by construction.
+    Returns (fails, known_cases, evidence, sets, parsed runs, corr)."""
     sets = truth_files(chk.tier)
     lines_in = []
     for i, (f, truth, extra) in enumerate(sets):
         lines_in.append(json.dumps({"id": i, "files": {f.name: f.text()}, "args": ["test", "."] + extra,
                                     "real_cargo": True, "keep_main_rs": True}))
-    # one worker: the three cargo invocations share /verif/build/gen-target
+    # one worker: the cargo invocations share /verif/build/gen-target
     os.environ["C16_WORKERS"] = "1"
     try:
-        out = vlib.run_harness(binary, ["run", "c16"], "\n".join(lines_in) + "\n", timeout=3000)
+        out = vlib.run_harness(binary, ["run", "c16"], "\n".join(lines_in) + "\n", timeout=6000)
     finally:
         os.environ.pop("C16_WORKERS", None)
     outs = [json.loads(l) for l in out.split("\n") if l.strip()]
-    fails, known_cases, ev = [], [], []
-    runs_body_seen = set()
-    model_terms, model_expect = [], []
+    fails, known_cases, ev, runs, corr = [], [], [], [], []
     for (f, truth, extra), o in zip(sets, outs):
         if "infra" in o:
             raise vlib.Infra("c16 real-cargo run: " + o["infra"])
         r = parse_run(o)
+        runs.append(r)
         blob = o.get("stdout", "") + o.get("stderr", "")
         for pat in INFRA_PATTERNS:
             if pat.lower() in blob.lower():
@@ -652,15 +673,16 @@ def run_truth(chk, binary, res):
         want_exit = 1 if any(l[2] in (1, 4) for l in want) else 0
         h = o.get("harness", {})
         rb = {n: bool(v.get("selected_is_test") or v.get("calls_selected")) for n, v in h.items()}
+        decl = {d.name: d for d in f.decls if isinstance(d, Fn)}
+        # tie: the generated harness executes exactly what Model.harness_runs_body says
         for n, v in rb.items():
-            runs_body_seen.add(v)
+            if n in decl and f.compiles() and v != model_runs_body(decl[n]):
+                corr.append({"file": f.name, "source": f.text(),
+                             "model_vs_impl": [("generated harness executes %s" % n, model_runs_body(decl[n]),
+                                                {k: h[n].get(k) for k in ("test_attrs", "selected_is_test", "has_main", "calls_selected")})]})
         ev.append({"file": f.name, "args": ["test", "."] + extra, "verdicts": [(l[1], l[2]) for l in got], "exit": r["exit"],
                    "truthful_verdicts": [(l[1], l[2]) for l in want], "truthful_exit": want_exit,
                    "harness": {n: {k: v[k] for k in ("test_attrs", "selected_is_test", "has_main", "calls_selected")} for n, v in h.items()}})
-        # model of the same run: raw_of_harness with the measured runs_body
-        rbv = (True in runs_body_seen) and (False not in runs_body_seen)
-        model_terms.append((f, truth, extra, rbv))
-        model_expect.append(r)
         wrong = []
         gd = {l[1]: l for l in got}
         for w in want:
@@ -671,29 +693,35 @@ def run_truth(chk, binary, res):
             wrong.append({"test": None, "truthful_exit": want_exit, "reported_exit": r["exit"]})
         for w in wrong:
             n = w["test"]
-            in_class = (n is not None and f.compiles() and truth.get(n) is False and not rb.get(n, False)
-                        and h.get(n, {}).get("test_attrs", 0) == 0)
-            d = next((x for x in f.decls if x.name == n), None)
-            if in_class and d is not None and not any(m == "skip" for m, _ in py_markers(d)):
+            d = decl.get(n)
+            # class Known_C16_body_not_executed, decided on what the GENERATED code does (measured), for a test
+            # the model says the harness cannot execute (parameters / async); anything else is a new failing input
+            in_class = (d is not None and f.compiles() and truth.get(n) is False and not rb.get(n, False)
+                        and h.get(n, {}).get("test_attrs", 0) == 0 and not model_runs_body(d)
+                        and not any(m == "skip" for m, _ in py_markers(d)))
+            if in_class:
                 known_cases.append({"file": f.name, "source": f.text(), **w})
             else:
-                fails.append({"oracle": "harness-truth (real cargo)", "file": f.name, "source": f.text(), "args": ["test", "."] + extra,
+                why = "a test whose body fails is not reported truthfully"
+                if d is not None and model_runs_body(d) and not rb.get(n, False):
+                    why = ("defect test-body-never-run is back: the generated main.rs does not execute the selected "
+                           "parameterless, non-async test (no #[test] on it), so its failing body is not reported")
+                fails.append({"oracle": "harness-truth (real cargo)", "why": why, "file": f.name, "source": f.text(), "args": ["test", "."] + extra,
                               "stdout": o.get("stdout", "")[-3000:], "generated_main_rs": h.get(n or "", {}).get("main_rs", ""), **w})
-    return fails, known_cases, runs_body_seen, ev, model_terms, model_expect
+    return fails, known_cases, ev, sets, runs, corr
 
 
-def coq_truth_term(f, truth, extra, runs_body):
-    """model of a real-cargo run: loop over the discovered+selected tests with raw_of_harness."""
+def coq_truth_term(f, truth, extra):
+    """model of a real-cargo run: loop over the discovered+selected tests with raw_of_harness harness_runs_body."""
     ok_names = "[" + "; ".join(cstr(n) for n, v in truth.items() if v) + "]"
-    return ("(%s, %s, %s, %s, %s)" % (coq_node(f), "true" if "--slow" in extra else "false", "true" if runs_body else "false",
-                                      "true" if f.compiles() else "false", ok_names))
+    return "(%s, %s, %s, %s)" % (coq_node(f), "true" if "--slow" in extra else "false", "true" if f.compiles() else "false", ok_names)
 
 
-TRUTH_RUN = ("fun c => let '(n, slow, rb, comp, oks) := c in "
+TRUTH_RUN = ("fun c => let '(n, slow, comp, oks) := c in "
              "let ts := select None slow (all_tests (discover_files (Some n))) in "
-             "let s := loop false (raw_of_harness rb (fun _ => comp) (fun t => mem_str (t_name t) oks)) ts st0 in "
+             "let s := loop false (raw_of_harness harness_runs_body (fun _ => comp) (fun t => mem_str (t_name t) oks)) ts st0 in "
              "(map (fun tr => (t_name (fst tr), fst (render_result (snd tr)))) (results s), exit_code s, "
-             " map (fun t => (t_name t, known_body_never_runb rb (fun _ => comp) (fun t => mem_str (t_name t) oks) t)) ts)")
+             " map (fun t => (t_name t, known_body_not_executedb harness_runs_body (fun _ => comp) (fun t => mem_str (t_name t) oks) t, harness_runs_body t)) ts)")
 
 
 # ------------------------------------------------------------------------------------------------
@@ -763,6 +791,10 @@ def fixed_cases():
 
 
 def run(chk):
+    if os.path.exists(KF_FALLBACK):
+        # TEMPORARY OVERRIDE (lead: drop these lines after merging build/kf-C16.json into known_findings.json;
+        # while the file exists it replaces the C16 entries of known_findings.json)
+        chk.findings = [f for f in json.load(open(KF_FALLBACK)) if f.get("property") == "C16"]
     chk.trusted = [
         "Coq 8.16.1 kernel (coqc; vm_compute for closed witnesses and for evaluating the model in the correspondence run)",
         "hand-written C16/Model.v for discover_test_files / discover_tests_and_fixtures / the filter, verdict loop, summary and exit code of run_tests (tied by correspondence, not generated)",
@@ -772,7 +804,7 @@ def run(chk):
     ]
     chk.assumptions = [
         "run_single_test is modelled as an explicit argument run : test -> raw; for the stub it is the scripted exit status (and `false` when the file does not type-check), for the real cargo it is raw_of_harness with runs_body measured from the generated main.rs",
-        "harness truth (Passed only if the body ran to completion) is proved only relative to raw_of_harness; on the current tree runs_body = false and the property is refuted (known finding test-body-never-run)",
+        "harness truth (Passed only if the body ran to completion) is proved relative to raw_of_harness harness_runs_body (tied: #[test] on the selected function is read off every generated main.rs); it holds for parameterless non-async tests (C16_truthful_for_plain_tests) and is refuted for tests with parameters/fixtures and async tests, which the generated harness does not execute (known finding test-with-params-or-async-not-executed)",
         "exit status 1 for 'no test files found' and for --fail-on-empty is the documented table (C16_exit_documented); C16_exit_nonzero_iff covers runs that collected at least one test",
         "test files that do not lex/parse are dropped with a message on stderr and do not affect the exit status (modelled as observed; the property statement does not cover them)",
         "@parametrize is not expanded and fixtures are never injected by the runner (modelled as observed: one verdict per function)",
@@ -882,8 +914,17 @@ def run(chk):
             if mlog != logkeys:
                 diffs.append(("executed", mlog, logkeys))
             if c["opts"]["verbose"] and r["kind"] in (1, 2):
-                if sorted(r["fixtures"]) != m["fixtures"] or (r["fixture_header"] or 0) != len(m["fixtures"]):
-                    diffs.append(("fixtures", m["fixtures"], (r["fixture_header"], sorted(r["fixtures"]))))
+                if r["fixtures"] != m["fixtures"] or (r["fixture_header"] or 0) != len(m["fixtures"]):
+                    diffs.append(("fixtures (listed sorted by name)", m["fixtures"], (r["fixture_header"], r["fixtures"])))
+            # the generated harness: #[test] on the selected function iff the model says its body runs
+            hz = o.get("harness", {})
+            last_rb = {}
+            for (fn, tn, rb) in m["executed_runs_body"]:
+                if files[fn].compiles():
+                    last_rb[tn] = rb
+            for tn, rb in last_rb.items():
+                if tn in hz and bool(hz[tn]["selected_is_test"] or hz[tn]["calls_selected"]) != rb:
+                    diffs.append(("generated harness executes %s" % tn, rb, hz[tn]))
             if diffs:
                 corr_bad.append({**detail, "model_vs_impl": diffs})
         # (3) discovery API vs model
@@ -903,7 +944,7 @@ def run(chk):
                         got.append((nm, False, [], []))
                 want = []
                 for (p, ok, tests, fxs) in dmodels[i]:
-                    want.append((pystr(p[-1]), bool(ok), [(pystr(tn), [(mk[0], pystr(mk[1])) for mk in ms], [pystr(x) for x in fx]) for (tn, ms, fx) in tests],
+                    want.append((pystr(p[-1]), bool(ok), [(pystr(tn), [(mk[0], pystr(mk[1])) for mk in ms], [pystr(x) for x in fx]) for (tn, ms, fx, _rb) in tests],
                                  [pystr(x) for x in fxs]))
                 if got != want:
                     corr_bad.append({**detail, "model_vs_impl": [("discover_* API", want, got)]})
@@ -922,41 +963,45 @@ def run(chk):
 
     # ---- harness truth with the real cargo
     t0 = time.time()
-    tfails, known_cases, runs_body_seen, tev, mterms, mexpect = run_truth(chk, binary, res)
+    tfails, known_cases, tev, tsets, truns, tcorr = run_truth(chk, binary, res)
     vlib.log("[c16] real-cargo truth runs in %.1fs" % (time.time() - t0))
     chk.coverage["harness_truth_runs"] = tev
-    chk.coverage["runs_body_measured"] = sorted(runs_body_seen | runs_body_stub)
-    for (f, truth, extra, _), r in zip(mterms, mexpect):
+    corr_bad += tcorr
+    for (f, truth, extra) in tsets:
         chk.count_case(("real-cargo", f.name, tuple(extra)), nontrivial=True)
-    if model_ok and len(runs_body_seen) == 1:
-        rb = True in runs_body_seen
-        ty = "node * bool * bool * bool * list str"
-        tm = vlib.coq_eval(req, ty, TRUTH_RUN, [coq_truth_term(f, t, e, rb) for (f, t, e, _) in mterms], tag="c16t", extra_defs=COQ_DEFS)
-        for (f, truth, extra, _), r, m in zip(mterms, mexpect, tm):
+    if model_ok:
+        ty = "node * bool * bool * list str"
+        tm = vlib.coq_eval(req, ty, TRUTH_RUN, [coq_truth_term(f, t, e) for (f, t, e) in tsets], tag="c16t", extra_defs=COQ_DEFS)
+        for (f, truth, extra), r, m in zip(tsets, truns, tm):
             mres = [(pystr(n), code) for (n, code) in m[0]]
             ires = [(l[1], l[2]) for l in r["lines"]]
             if mres != ires or m[1] != r["exit"]:
                 corr_bad.append({"file": f.name, "source": f.text(), "args": ["test", "."] + extra,
-                                 "model_vs_impl": [("real cargo vs raw_of_harness runs_body=%s" % rb, (mres, m[1]), (ires, r["exit"]))]})
-            # the Python class decision must coincide with the Coq predicate
-            coq_known = {pystr(n) for (n, k) in m[2] if k}
-            py_known = {k["test"] for k in known_cases if k["file"] == f.name} | {x["test"] for x in tfails if x.get("file") == f.name and False}
-            skipped = {d.name for d in f.decls if any(mk == "skip" for mk, _ in py_markers(d))}
-            if py_known != (coq_known - skipped):
-                corr_bad.append({"file": f.name, "model_vs_impl": [("known-class membership", sorted(coq_known - skipped), sorted(py_known))]})
-    elif model_ok and len(runs_body_seen) > 1:
-        corr_bad.append({"model_vs_impl": [("generated harnesses disagree on whether the selected body is executed", None, sorted(runs_body_seen))]})
+                                 "model_vs_impl": [("real cargo vs raw_of_harness harness_runs_body", (mres, m[1]), (ires, r["exit"]))]})
+            # the Python class decision and runs_body mirror must coincide with the Coq definitions
+            decl = {d.name: d for d in f.decls if isinstance(d, Fn)}
+            coq_known = {pystr(n) for (n, k, _) in m[2] if k}
+            skipped = {d.name for d in f.decls if isinstance(d, Fn) and any(mk == "skip" for mk, _ in py_markers(d))}
+            py_class = {n for n, d in decl.items() if n.startswith("test_") and f.compiles() and truth.get(n) is False and not model_runs_body(d)}
+            if py_class != coq_known:
+                corr_bad.append({"file": f.name, "model_vs_impl": [("known-class membership (Python mirror vs Coq predicate)", sorted(coq_known), sorted(py_class))]})
+            for (n, _, rbm) in m[2]:
+                if model_runs_body(decl[pystr(n)]) != bool(rbm):
+                    corr_bad.append({"file": f.name, "model_vs_impl": [("harness_runs_body mirror", pystr(n), bool(rbm))]})
+            # every member of the class that was run must have been observed misreported (else the class is too wide)
+            seen = {k["test"] for k in known_cases if k["file"] == f.name}
+            if (coq_known - skipped) != seen and not [x for x in tfails if x.get("file") == f.name]:
+                corr_bad.append({"file": f.name, "model_vs_impl": [("members of the known class observed misreported", sorted(coq_known - skipped), sorted(seen))]})
 
     listed = [f for f in chk.findings if f.get("status") == "known" and
-              (f.get("id") == FINDING_ID or str(f.get("class", "")).startswith("Known_C16_body_never_run"))]
+              (f.get("id") == FINDING_ID or str(f.get("class", "")).startswith("Known_C16_body_not_executed"))]
     if known_cases:
         if listed:
-            w = known_cases[0]
-            chk.known(listed[0].get("id", FINDING_ID), "%s: %s" % (listed[0].get("id", FINDING_ID), listed[0].get("summary", "a test whose body fails is reported PASSED")))
+            chk.known(listed[0].get("id", FINDING_ID), "%s: %s" % (listed[0].get("id", FINDING_ID), listed[0].get("summary", "a test with parameters whose body fails is reported PASSED")))
             chk.coverage["known_finding_witness_replayed"] = known_cases[:6]
         else:
             for k in known_cases[:5]:
-                tfails.append({"oracle": "harness-truth (real cargo)", "why": "a test whose body fails is not reported truthfully (class test-body-never-run, not listed as known)", **k})
+                tfails.append({"oracle": "harness-truth (real cargo)", "why": "a test with parameters / async test whose body fails is not reported truthfully (class Known_C16_body_not_executed, not listed as known)", **k})
     fails += tfails
 
     for f in fails[:20]:
